@@ -322,6 +322,11 @@ void SoPlexBase<R>::_preprocessAndSolveReal(bool applySimplifier, volatile bool*
          spx_free(_realLP);
          _realLP = &_solver;
          _isRealLPLoaded = true;
+
+         // the scaler of a persistently scaled LP works on the scaling exponents stored in the LP object it was set up
+         // on; that was the copy destroyed above
+         if(_isRealLPScaled && _scaler != nullptr)
+            _scaler->attach(*_realLP);
       }
    }
 
@@ -829,6 +834,11 @@ void SoPlexBase<R>::_loadRealLP(bool initBasis)
    _realLP->~SPxLPBase<R>();
    spx_free(_realLP);
    _realLP = &_solver;
+
+   // the scaler of a persistently scaled LP works on the scaling exponents stored in the LP object it was set up
+   // on; that was the copy destroyed above
+   if(_isRealLPScaled && _scaler != nullptr)
+      _scaler->attach(*_realLP);
 
    if(initBasis)
       _solver.init();
